@@ -8,6 +8,7 @@
         M<atom> Rule::match( in ) of an atom: any one(one< 'a' >) not(not_one< 'a' >) rng(range< 'a', 'c' >) rgs(ranges< 'a', 'b', 'x', 'z', '\n' >)
           str(string< 'a', 'b', 'c' >) stn(string< 'a', '\n' >) ist(istring< 'a', 'B' >) by3(bytes< 3 >) eof bof bol eol eolf evr(everything) rq2(require< 2 >) suc fai
           r13(rep_one_min_max< 1, 3, 'a' >) r02(rep_one_min_max< 0, 2, 'a' >) rn2(rep_one_min_max< 1, 2, '\n' >)
+          u8r(utf8::range< 0x80, 0x7FF >) u8n(utf8::not_range< 0x61, 0xFFFF >) u8w(utf8::range< 0, 0x10FFFF >)
   stdout, one line per case: `init=<capacity>/<state>` followed by one record `<op>=<obs>/<state>` per op;
       obs   = ok | ovf (std::overflow_error) | a number | ill (call outside its contract: not executed)
       state = cur:occupied:free_after_end:byte:line:column:fed:<hex of the window [current, end)>
@@ -69,6 +70,9 @@ def atomOf : String → Option Atom
   | "r13" => some (.repOne 1 3 97)
   | "r02" => some (.repOne 0 2 97)
   | "rn2" => some (.repOne 1 2 10)
+  | "u8r" => some (.utf8Range true 0x80 0x7FF)
+  | "u8n" => some (.utf8Range false 0x61 0xFFFF)
+  | "u8w" => some (.utf8Range true 0 0x10FFFF)
   | "suc" => some .success
   | "fai" => some .failure
   | _ => none
